@@ -7,7 +7,7 @@ import random
 from expr_common import enc, fl, d, src
 
 LEAVES = ['amount', 'month', '0', '2', '2.5', 'description', '"uber"', '"Uber"', 'field.memo', 'date',
-          '"2025-01-31"', 'true', 'orders', 'x']
+          '"2025-01-31"', 'true', 'orders', 'x', 'None']
 UN = ['not', '-']
 CALL1 = ['contains', 'startswith', 'normalized', 'anyof', 'regex', 'extract', 'len', 'abs', 'round', 'exists', 'trim',
          'uppercase', 'lowercase', 'any', 'all', 'sum', 'min', 'max', 'fuzzy']
@@ -15,7 +15,7 @@ METH0 = ['lower', 'upper', 'strip']
 BIN = ['+', '-', '*', '/', '%']
 CMP = ['==', '!=', '<', '<=', '>', '>=', 'in', 'not in']
 CALL2 = ['contains', 'startswith', 'normalized', 'regex', 'extract', 'fuzzy', 'strip_prefix', 'strip_suffix', 'min', 'max',
-         'sum', 'anyof', 'split', 'substring', 'round']
+         'sum', 'anyof', 'split', 'substring', 'round', 'next']
 METH1 = ['startswith', 'endswith']
 
 
@@ -73,7 +73,14 @@ def comprehension_family():
         ge = ('comp', '(', e, [('r', it, ifs)])
         out += [lc, ('call', 'len', [lc]), ('call', 'any', [ge]), ('call', 'all', [ge]), ('call', 'sum', [ge]),
                 ('call', 'next', [ge, '"none"']), ('call', 'next', [ge]), ('call', 'max', [ge]), ('call', 'min', [lc]),
-                ('sub', lc, '0'), ('cmp', 'amount', [('in', lc)])]
+                ('sub', lc, '0'), ('cmp', 'amount', [('in', lc)]),
+                ('call', 'next', [ge, 'None']), ('call', 'next', [ge, 'nothing']),
+                ('cmp', ('call', 'next', [ge, 'None']), [('==', 'None')]),
+                ('un', 'not', ('cmp', ('call', 'next', [ge, 'nothing']), [('!=', 'None')])),
+                ('call', 'next', [ge, ('walrus', 'dflt', 'None')]), ('call', 'next', [ge, '0']), ('call', 'next', [ge, '""']),
+                ('call', 'sum', [ge, 'None']), ('call', 'sum', [lc, 'nothing']),
+                ('if', ('call', 'any', [ge]), 'None', ('call', 'len', [lc])),
+                ('cmp', 'None', [('in', lc)])]
     # scoping: nested loops, shadowing, leak after early exit, walrus
     out += [
         ('comp', '[', ('bin', '+', 'r.amount', 'p.amount'), [('r', 'orders', []), ('p', 'paypal', [])]),
@@ -114,13 +121,23 @@ NUM_ATOMS = ['amount', 'month', 'year', 'day', 'weekday', 'txn.amount', 'k'] + N
 DATE_ATOMS = ['date', 'txn.date']
 BOOL_ATOMS = ['true', 'false', 'is_large', 'True', 'False']
 LIST_ATOMS = ['orders', 'paypal']
-ILL = ['None', 'nope', 'field.nope', 'orders', 'date', '"s"', '5', 'description']
+ILL = ['None', 'nope', 'field.nope', 'orders', 'date', '"s"', '5', 'description', 'nothing', 'None']
+NONE_ATOMS = ['None', 'nothing', 'None']
+DEFAULTS = ['"none"', 'None', 'nothing', '0', '""', 'False']
 
 
 def gen(rnd, ty, depth, loopvars=()):
     """random tree of (intended) type ty in {'bool','num','str','date','list','any'}; mostly well-typed."""
     if ty == 'any':
         ty = rnd.choice(['bool', 'bool', 'num', 'str', 'date', 'list'])
+        if rnd.random() < 0.06:
+            return rnd.choice(NONE_ATOMS)
+    if depth > 0 and rnd.random() < 0.05:       # None as a ternary branch / the result of an empty query
+        r0 = rnd.random()
+        if r0 < 0.5:
+            return ('if', gen(rnd, 'bool', depth - 1, loopvars), rnd.choice(NONE_ATOMS), gen(rnd, ty, depth - 1, loopvars))
+        return ('call', 'next', [gen_comp(rnd, '(', ty if ty in ('num', 'str', 'bool') else 'row', depth - 1, loopvars),
+                                 rnd.choice(DEFAULTS)])
     if rnd.random() < 0.04:
         return rnd.choice(ILL)                       # ill-typed intrusion
     leaf = depth <= 0 or rnd.random() < 0.18
@@ -139,8 +156,10 @@ def gen(rnd, ty, depth, loopvars=()):
             return ('call', rnd.choice(['abs', 'round']), [gen(rnd, 'num', depth - 1, lv)])
         if r < 0.75:
             return ('call', 'len', [gen(rnd, rnd.choice(['str', 'list']), depth - 1, lv)])
-        if r < 0.85:
+        if r < 0.82:
             return ('call', rnd.choice(['sum', 'max', 'min']), [gen_comp(rnd, '(', 'num', depth - 1, lv)])
+        if r < 0.85:
+            return ('call', 'sum', [gen_comp(rnd, rnd.choice('(['), 'num', depth - 1, lv), rnd.choice(['0', '0.5', 'None', 'nothing', 'k'])])
         if r < 0.92:
             return ('if', gen(rnd, 'bool', depth - 1, lv), gen(rnd, 'num', depth - 1, lv), gen(rnd, 'num', depth - 1, lv))
         return ('call', rnd.choice(['min', 'max']), [gen(rnd, 'num', depth - 1, lv), gen(rnd, 'num', depth - 1, lv)])
@@ -168,7 +187,7 @@ def gen(rnd, ty, depth, loopvars=()):
             return ('call', 'regex_replace', [gen(rnd, 'str', depth - 1, lv), rnd.choice(['"\\\\s+"', '"^uber\\\\s*"', '"[0-9]"']), rnd.choice(['""', '"_"'])])
         if r < 0.95:
             return ('if', gen(rnd, 'bool', depth - 1, lv), gen(rnd, 'str', depth - 1, lv), gen(rnd, 'str', depth - 1, lv))
-        return ('call', 'next', [gen_comp(rnd, '(', 'str', depth - 1, lv), '"none"'])
+        return ('call', 'next', [gen_comp(rnd, '(', 'str', depth - 1, lv), rnd.choice(DEFAULTS)])
     if ty == 'date':
         if lv and rnd.random() < 0.4:
             return rnd.choice(lv) + '.date'
@@ -193,8 +212,12 @@ def gen(rnd, ty, depth, loopvars=()):
         if rnd.random() < 0.3:
             rest.append((rnd.choice(CMP[:6]), gen(rnd, t, depth - 1, lv)))
         return ('cmp', gen(rnd, t, depth - 1, lv), rest)
-    if r < 0.53:
+    if r < 0.50:
         return ('cmp', gen(rnd, 'str', depth - 1, lv), [(rnd.choice(['in', 'not in']), gen(rnd, 'str', depth - 1, lv))])
+    if r < 0.53:      # "no supplemental row for this transaction": == None / != None
+        return ('cmp', rnd.choice([('call', 'next', [gen_comp(rnd, '(', rnd.choice(['num', 'str', 'row']), depth - 1, lv), rnd.choice(NONE_ATOMS)]),
+                                   gen(rnd, 'any', depth - 1, lv), 'txn.location', 'nothing']),
+                [(rnd.choice(['==', '!=']), rnd.choice(NONE_ATOMS))])
     if r < 0.58:
         return ('cmp', gen(rnd, 'num', depth - 1, lv), [(rnd.choice(['in', 'not in']), gen_comp(rnd, '[', 'num', depth - 1, lv))])
     if r < 0.72:
@@ -252,5 +275,7 @@ def rand_env(rnd):
         ds['orders'] = [row() for _ in range(rnd.choice([0, 1, 2, 3]))]
     if rnd.random() < 0.5:
         ds['paypal'] = [dict(row(), merchant=enc('ACME')) for _ in range(rnd.choice([0, 1, 2]))]
-    vars_ = rnd.choice([{}, {'is_large': enc(True), 'k': enc(3)}, {'x': enc('Uber'), 'k': fl(0.5), 'is_large': enc(False)}])
+    vars_ = dict(rnd.choice([{}, {'is_large': enc(True), 'k': enc(3)}, {'x': enc('Uber'), 'k': fl(0.5), 'is_large': enc(False)}]))
+    if rnd.random() < 0.8:
+        vars_['nothing'] = enc(None)      # a failed let / a query that found nothing
     return {'txn': txn, 'vars': vars_, 'ds': ds}
